@@ -135,7 +135,11 @@ func (e *Exec) scenarioShape(path string, t types.Type, a string) ([]altFn, bool
 			fr := s.alloc(zeroVal(fileT))
 			delete(s.Fresh, fr.Cell)
 			s.CellTypes[fr.Cell] = fileT
-			or := s.alloc(mkStruct(outT, map[string]Val{"file": fr, "warner": Opaque{Tag: "warner", Typ: strFn}}))
+			dn := s.alloc(&MapAgg{Tag: "declsByName"})
+			delete(s.Fresh, dn.Cell)
+			ds := s.alloc(&MapAgg{Tag: "declsBySchema"})
+			delete(s.Fresh, ds.Cell)
+			or := s.alloc(mkStruct(outT, map[string]Val{"file": fr, "warner": Opaque{Tag: "warner", Typ: strFn}, "declsByName": MapV{Cell: dn.Cell}, "declsBySchema": MapV{Cell: ds.Cell}}))
 			delete(s.Fresh, or.Cell)
 			s.CellTypes[or.Cell] = outT
 			caserT := w.namedType("internal/x/text", "Caser")
@@ -215,6 +219,30 @@ func (e *Exec) scenarioShape(path string, t types.Type, a string) ([]altFn, bool
 			delete(s.Fresh, r.Cell)
 			return SliceV{Arr: r, Len_: len(els), Cap: len(els)}
 		}, a)
+	case "enumvals": // enumvals(string,float64,bool,nil): a []interface{} of decoded JSON values
+		return one(func(s *State) Val {
+			var els []Val
+			for i, k := range args {
+				nm := fmt.Sprintf("%s[%d]", path, i)
+				switch k {
+				case "string":
+					els = append(els, Iface{Dyn: types.Typ[types.String], V: atom(nm)})
+				case "float64":
+					els = append(els, Iface{Dyn: types.Typ[types.Float64], V: mkVar(nm, SReal)})
+				case "bool":
+					els = append(els, Iface{Dyn: types.Typ[types.Bool], V: mkVar(nm, SBool)})
+				case "nil":
+					els = append(els, Iface{})
+				case "object":
+					els = append(els, Iface{Dyn: errDynType, V: Opaque{Tag: nm}})
+				default:
+					unsupported("enumvals kind %s", k)
+				}
+			}
+			r := s.alloc(&Agg{Elems: els})
+			delete(s.Fresh, r.Cell)
+			return SliceV{Arr: r, Len_: len(els), Cap: len(els)}
+		}, a)
 	case "emptyslice": // a non-nil slice of length 0
 		return one(func(s *State) Val {
 			r := s.alloc(&Agg{})
@@ -286,6 +314,59 @@ func (e *Exec) scenarioShape(path string, t types.Type, a string) ([]altFn, bool
 			})
 		}
 		return out, true
+	case "gen": // gen(id1=file:pkg;id2=file:pkg | map:id=pkg,out,root;...): a *Generator with these outputs / mappings
+		p, ok := t.Underlying().(*types.Pointer)
+		if !ok {
+			unsupported("gen() on non-pointer")
+		}
+		return one(func(s *State) Val {
+			outT := w.namedType("pkg/generator", "output")
+			fileT := w.namedType("pkg/codegen", "File")
+			pkgT := w.namedType("pkg/codegen", "Package")
+			cfgT := w.namedType("pkg/generator", "Config")
+			mapT := w.namedType("pkg/generator", "SchemaMapping")
+			strFn := types.NewSignatureType(nil, nil, nil, types.NewTuple(types.NewVar(0, nil, "", types.Typ[types.String])), nil, false)
+			outs := &MapAgg{Tag: "outputs"}
+			var mappings []Val
+			for _, spec := range strings.Split(strings.Join(args, ","), ";") {
+				spec = strings.TrimSpace(spec)
+				if spec == "" {
+					continue
+				}
+				if strings.HasPrefix(spec, "map:") {
+					kv := strings.SplitN(strings.TrimPrefix(spec, "map:"), "=", 2)
+					f := strings.Split(kv[1], ",")
+					for len(f) < 3 {
+						f = append(f, "")
+					}
+					mappings = append(mappings, mkStruct(mapT, map[string]Val{"SchemaID": lit(kv[0]), "PackageName": lit(f[0]), "OutputName": lit(f[1]), "RootType": lit(f[2])}))
+					continue
+				}
+				kv := strings.SplitN(spec, "=", 2)
+				fp := strings.SplitN(kv[1], ":", 2)
+				fr := s.alloc(mkStruct(fileT, map[string]Val{"FileName": lit(fp[0]), "Package": mkStruct(pkgT, map[string]Val{"QualifiedName": lit(fp[1])})}))
+				delete(s.Fresh, fr.Cell)
+				s.CellTypes[fr.Cell] = fileT
+				or := s.alloc(mkStruct(outT, map[string]Val{"file": fr, "warner": Opaque{Tag: "warner", Typ: strFn}}))
+				delete(s.Fresh, or.Cell)
+				s.CellTypes[or.Cell] = outT
+				outs.Keys = append(outs.Keys, lit(kv[0]))
+				outs.Vals = append(outs.Vals, or)
+			}
+			mr := s.alloc(outs)
+			delete(s.Fresh, mr.Cell)
+			var ms Val = SliceV{}
+			if len(mappings) > 0 {
+				ar := s.alloc(&Agg{Elems: mappings})
+				delete(s.Fresh, ar.Cell)
+				ms = SliceV{Arr: ar, Len_: len(mappings), Cap: len(mappings)}
+			}
+			cfg := mkStruct(cfgT, map[string]Val{"SchemaMappings": ms, "DefaultOutputName": lit("default.go"), "DefaultPackageName": lit("defpkg"), "Warner": Opaque{Tag: "config.Warner", Typ: strFn}})
+			gr := s.alloc(mkStruct(p.Elem(), map[string]Val{"config": cfg, "warner": Opaque{Tag: "warner", Typ: strFn}, "outputs": MapV{Cell: mr.Cell}}))
+			delete(s.Fresh, gr.Cell)
+			s.CellTypes[gr.Cell] = p.Elem()
+			return gr
+		}, a)
 	case "decls": // decls(a, b, ...): *output whose declsByName holds finished declarations of these names
 		p, ok := t.Underlying().(*types.Pointer)
 		if !ok {
